@@ -157,7 +157,7 @@ EXTRA7 = {
  'C09': 'fork stages built under a context that is already done.',
  'C10': 'Folds of 2^18+1 ... 2^21 elements with 1-3 workers; 32 KiB histogram values with 1024, 1025 and 1500 workers.',
  'C11': 'Emit and Unfold through package fork\'s wrappers as well; under contexts already done at the call; Emit under a deadline at every quarter tick; Emit on the real clock (lower bounds only: no call or value before its tick, calls one tick apart).',
- 'C12': 'fork.Join as a second variant of every Join program; a pre-buffered input of 2^18+1 / 2^20+7 elements (per-input order); thorough: 300 inputs of 1 MiB elements.',
+ 'C12': 'fork.Join as a second variant of every Join program; a pre-buffered input of 2^18+1 / 2^20+7 elements (per-input order); thorough: 4200 inputs of 64 KB elements.',
  'C13': 'fork.Throttling as a second variant; Throttling on the real clock (3000-6000 elements at 1 ms), judged by lower bounds only (never earlier than the rate allows, never more per window than stated).',
  'C14': 'Predicate families with memory (first occurrence, every third call), one instance per node and evaluation; once the ForEach visitor has returned its error no callback of the expression may run.',
  'C15': 'Predicate families with memory over pairs; the same stop-after-error monitor for pair.ForEach.',
